@@ -24,30 +24,39 @@ static int sp_hex(char* buf, unsigned long long v, int width) {
     buf[n] = 0; return n;
 }
 static int sp_fill(char* buf, int n) { int k; for (k = 0; k < 24; k++) if (k < n) buf[k] = '#'; buf[n] = 0; return n; }
-int sprintf(char* buf, const char* fmt, ...) {
-    va_list ap; int n = 0;
-    va_start(ap, fmt);
-    sp_calls++;
-    if (sp_eq(fmt, "%u")) { unsigned v = va_arg(ap, unsigned); sp_kind = SP_U32; sp_ival = v; n = sp_fill(buf, sp_ndigits(v)); }
-    else if (sp_eq(fmt, "%i")) { int v = va_arg(ap, int); unsigned long long m = v < 0 ? (unsigned long long)(-(long long)v) : (unsigned long long)v;
+/* All sprintf calls in w2c2 pass exactly one value.  The call is routed by the PROMOTED type of that value
+ * ((x)+0 applies the integer promotions, float is widened like a vararg) to a non-variadic model function, so the
+ * model sees exactly what a variadic callee would fetch with va_arg. */
+static int sp_model(char* buf, const char* fmt, int is_float, unsigned long long iv, long long sv, double dv) {
+    int n = 0; sp_calls++;
+    if (sp_eq(fmt, "%u")) { unsigned v = (unsigned)iv; sp_kind = SP_U32; sp_ival = v; n = sp_fill(buf, sp_ndigits(v)); }
+    else if (sp_eq(fmt, "%i")) { int v = (int)sv; unsigned long long m = v < 0 ? (unsigned long long)(-(long long)v) : (unsigned long long)v;
         sp_kind = SP_I32; sp_ival = (unsigned long long)(long long)v; n = sp_fill(buf, sp_ndigits(m) + (v < 0)); }
-    else if (sp_eq(fmt, "%llu")) { unsigned long long v = va_arg(ap, unsigned long long); sp_kind = SP_U64; sp_ival = v; n = sp_fill(buf, sp_ndigits(v)); }
-    else if (sp_eq(fmt, "%lli")) { long long v = va_arg(ap, long long); unsigned long long m = v < 0 ? (0ull - (unsigned long long)v) : (unsigned long long)v;
+    else if (sp_eq(fmt, "%llu")) { unsigned long long v = iv; sp_kind = SP_U64; sp_ival = v; n = sp_fill(buf, sp_ndigits(v)); }
+    else if (sp_eq(fmt, "%lli")) { long long v = sv; unsigned long long m = v < 0 ? (0ull - (unsigned long long)v) : (unsigned long long)v;
         sp_kind = SP_I64; sp_ival = (unsigned long long)v; n = sp_fill(buf, sp_ndigits(m) + (v < 0)); }
-    else if (sp_eq(fmt, "%02X")) { unsigned v = va_arg(ap, unsigned); sp_kind = SP_HEX; sp_ival = v; n = sp_hex(buf, v, 2); }
-    else if (sp_eq(fmt, "%08X")) { unsigned v = va_arg(ap, unsigned); sp_kind = SP_HEX; sp_ival = v; n = sp_hex(buf, v, 8); }
-    else if (sp_eq(fmt, "%016llX")) { unsigned long long v = va_arg(ap, unsigned long long); sp_kind = SP_HEX; sp_ival = v; n = sp_hex(buf, v, 16); }
-    else if (sp_eq(fmt, "%.9g")) {
-#ifdef REPLAY
-        double v = va_arg(ap, double);
-#else
-        /* CBMC stores a float vararg unpromoted; w2c2 passes an F32 here */
-        double v = (double)va_arg(ap, float);
-#endif
-        int len = (int)(nd8() % 15) + 1; sp_kind = SP_G9; sp_dval = v; n = sp_fill(buf, len); }
-    else if (sp_eq(fmt, "%.17g")) { double v = va_arg(ap, double); int len = (int)(nd8() % 24) + 1; sp_kind = SP_G17; sp_dval = v; n = sp_fill(buf, len); }
+    else if (sp_eq(fmt, "%02X")) { unsigned v = (unsigned)iv; sp_kind = SP_HEX; sp_ival = v; n = sp_hex(buf, v, 2); }
+    else if (sp_eq(fmt, "%08X")) { unsigned v = (unsigned)iv; sp_kind = SP_HEX; sp_ival = v; n = sp_hex(buf, v, 8); }
+    else if (sp_eq(fmt, "%016llX")) { unsigned long long v = iv; sp_kind = SP_HEX; sp_ival = v; n = sp_hex(buf, v, 16); }
+    else if (sp_eq(fmt, "%.9g")) { int len = (int)(nd8() % 15) + 1; V_ASSERT(is_float, "%.9g is given a floating-point value"); sp_kind = SP_G9; sp_dval = dv; n = sp_fill(buf, len); }
+    else if (sp_eq(fmt, "%.17g")) { int len = (int)(nd8() % 24) + 1; V_ASSERT(is_float, "%.17g is given a floating-point value"); sp_kind = SP_G17; sp_dval = dv; n = sp_fill(buf, len); }
     else { V_ASSERT(0, "sprintf model: conversion not modelled"); }
-    va_end(ap);
-    return n;
-}
+    return n; }
+static int sp_i(char* b, const char* f, int v) { return sp_model(b, f, 0, (unsigned long long)(unsigned)v, (long long)v, 0.0); }
+static int sp_u(char* b, const char* f, unsigned v) { return sp_model(b, f, 0, (unsigned long long)v, (long long)v, 0.0); }
+static int sp_l(char* b, const char* f, long v) { return sp_model(b, f, 0, (unsigned long long)v, (long long)v, 0.0); }
+static int sp_ul(char* b, const char* f, unsigned long v) { return sp_model(b, f, 0, (unsigned long long)v, (long long)v, 0.0); }
+static int sp_ll(char* b, const char* f, long long v) { return sp_model(b, f, 0, (unsigned long long)v, v, 0.0); }
+static int sp_ull(char* b, const char* f, unsigned long long v) { return sp_model(b, f, 0, v, (long long)v, 0.0); }
+static int sp_d(char* b, const char* f, double v) { return sp_model(b, f, 1, 0, 0, v); }
+/* the one two-value call: sprintf(filename, "%c%010u.c", prefix, index): prefix character, ten placeholder digits, ".c" */
+static int sp_name_prefix; static unsigned sp_name_index; static int sp_name_calls;
+static int sp_2(char* b, const char* f, int c, unsigned idx) { int k; V_ASSERT(sp_eq(f, "%c%010u.c"), "sprintf model: two-value conversion not modelled");
+    sp_calls++; sp_name_calls++; sp_name_prefix = c; sp_name_index = idx; b[0] = (char)c; for (k = 0; k < 10; k++) b[1 + k] = '#'; b[11] = '.'; b[12] = 'c'; b[13] = 0; return 13; }
+#undef sprintf
+#define SP_1(buf, fmt, x) _Generic((x) + 0, int: sp_i, unsigned int: sp_u, long: sp_l, unsigned long: sp_ul, long long: sp_ll, \
+    unsigned long long: sp_ull, float: sp_d, double: sp_d)(buf, fmt, (x) + 0)
+#define SP_2(buf, fmt, x, y) sp_2(buf, fmt, (int)(x), (unsigned)(y))
+#define SP_PICK(_1, _2, NAME, ...) NAME
+#define sprintf(buf, fmt, ...) SP_PICK(__VA_ARGS__, SP_2, SP_1)(buf, fmt, __VA_ARGS__)
 #endif
